@@ -347,10 +347,17 @@ func genC17Crash(r *rand.Rand) *c02Case {
 			c.Steps = append(c.Steps, dbStep{Op: "rotate"})
 		case 4:
 			c.Steps = append(c.Steps, dbStep{Op: "del", K: k})
+			if r.Intn(2) == 0 {
+				// accepted by both flavours and logged: the empty / nil key
+				c.Steps = append(c.Steps, dbStep{Op: "del", K: []byte{}}, dbStep{Op: "delb", KNil: true})
+			}
 		default:
 			c.Steps = append(c.Steps, dbStep{Op: "put", K: k, V: []byte(fmt.Sprintf("v%d", j))})
 		}
 	}
+	// every session logs at least one tombstone for the empty key (accepted by both flavours) that is still in the WAL
+	// when the kill images are taken
+	c.Steps = append(c.Steps, dbStep{Op: "delb", K: []byte{}}, dbStep{Op: "put", K: keys[0], V: []byte("last")})
 	return c
 }
 
